@@ -11,7 +11,7 @@
 (* C13:  d = (M+2) g:  P(S >= t + d) <= p,  and with u the largest         *)
 (*       attainable score below t - d (if any)  P(S >= u - d) >= p         *)
 (***************************************************************************)
-EXTENDS Dist, TLC, Json, IOUtils
+EXTENDS Tfm, TLC, Json, IOUtils
 
 VARIABLES l, st
 
@@ -34,7 +34,14 @@ ApplyPv(s, e) ==
       D == ConvDist(Double(e.pssm), e.bn, e.K)
       bad == {q \in 1..Len(e.iters) : ~PvIterOK(D, e, e.iters[q], M)}
       progress == Len(e.iters) >= 1 /\ \A q \in 1..Len(e.iters) : e.iters[q].k = q
+      \* fidelity of the I-layer model (advisory): some admissible row permutation makes Tfm!LookupPv reproduce the
+      \* logged range of every coarse iteration exactly (only for exact numerators and the first granularity 1/10; 1/100 is covered by MC_Tfm)
+      fid == \A q \in 1..Len(e.iters) :
+               (e.iters[q].ginv <= 10 /\ e.iters[q].exact = 1) =>
+                 \E pm \in Perms(e.pssm, e.K) :
+                    LookupPv(e.pssm, pm, e.bn, e.bd, e.K, e.iters[q].ginv, e.s8, FALSE) = <<e.iters[q].pmin, e.iters[q].pmax>>
   IN [ok |-> progress /\ bad = {}, st |-> s,
+      note |-> IF progress /\ bad = {} /\ ~fid THEN "TFM-PVALUE look-up differs from the I-layer model Tfm!LookupPv" ELSE "",
       exp |-> [why |-> IF ~progress THEN "no_iteration" ELSE "pvalue_range_outside_exact_tail_bounds",
                detail |-> IF bad = {} THEN <<>> ELSE
                   LET q == CHOOSE q \in bad : TRUE  it == e.iters[q] IN
